@@ -184,6 +184,14 @@ class Extractor:
             # reader: `if let Some(v) = visitor.visit_x()? { <parse> } else { reader.skip(length)? }` — the visitor declined this item;
             # the layout of the attribute is the parsed alternative (the skip consumes the same bytes unseen)
             c0 = H.peel(n["cond"], refs=False)
+            # reader: `if interests.x { <parse> } else { reader.skip(length)? }` (either polarity) — the same alternative as the guard pair
+            # `name == X && !interests.x => skip` / `name == X => <parse>` of an attribute dispatch: the layout is the parsed side
+            if side == "r":
+                flag = interest_test(self.fn["body"], n["cond"])
+                if flag is not None:
+                    take, other = (e, t) if flag[1] else (t, e)
+                    if take and len(other) == 1 and other[0][1].get("i") == "skip" and other[0][1].get("n") is None:
+                        return c + take
             if side == "r" and c0.get("k") == "letexpr" and any((H.callee_name(x) or "").startswith("visit") for x in H.walk(c0["init"]) if x.get("k") in ("call", "mcall")):
                 pure_skip = lambda items: len(items) == 1 and items[0][1].get("i") == "skip" and items[0][1].get("n") is None
                 if t and pure_skip(e):
@@ -215,7 +223,18 @@ class Extractor:
             return [(None, {"i": "loop", "body": body, "node": n})]
         if k == "closure":
             if has_stream_ops(n["body"], side):
-                return [(None, {"i": "unk", "what": "closure touching the stream in an unrecognised position", "sp": n.get("sp")})]
+                # the buffers the closure touches, when every one of them is a local of the enclosing function (then the closure is
+                # irrelevant for the layout of any other buffer); None = not determinable -> relevant for every buffer
+                inner = _bound_inside(n)
+                bufs = set()
+                for x in H.walk(n["body"]):
+                    if is_stream_call(x, side):
+                        b = self.buf_of(x["recv"])
+                        if b is None or b in inner:
+                            bufs = None
+                            break
+                        bufs.add(b)
+                return [(None, {"i": "unk", "what": "closure touching the stream in an unrecognised position", "sp": n.get("sp"), "bufs": bufs})]
             return []
         if k == "call":
             return self.call(n)
@@ -324,6 +343,13 @@ class Extractor:
                         return pre + sz + [(buf, {"i": "rep", "body": el, "node": n, "cw": None, "count": None, "filtered": None,
                                                    "over": n["args"][0], "elem_pat": a2["params"][1] if len(a2["params"]) > 1 else None})]
                 return pre + [(buf, {"i": "unk", "what": "ClassWrite::%s in an unrecognised form" % name, "sp": n.get("sp")})]
+        # `<iterator>.try_for_each(|x| ..)` / `.for_each(..)` / `.map(..)` with stream operations in the closure == `for x in <iterator> { .. }`
+        cl = iter_closure(n)
+        if cl is not None and has_stream_ops(cl["body"], side):
+            it = self.walk(n["recv"])
+            body = self.walk(cl["body"])
+            return it + [(None, {"i": "rep", "body": body, "node": n, "cw": None, "count": None, "filtered": None,
+                                 "elem_pat": cl["params"][0] if cl["params"] else None})]
         # method of a repo type that takes the stream (PoolWrite::write(self, writer), ...)
         c = n.get("callee") or {}
         fb = self.repo_fn(c)
@@ -337,6 +363,71 @@ class Extractor:
         for a in n["args"]:
             out.extend(self.walk(a))
         return out
+
+
+ITER_CONSUMERS = ("try_for_each", "for_each", "map")
+
+
+def iter_closure(n):
+    """closure node when `n` is `<iterator>.try_for_each(|x| ..)` / `.for_each(..)` / `.map(..)` — the iterator-chain spelling of a
+    `for` loop over the receiver (not Option::map / Result::map: those are conditionals, not repetitions)."""
+    if n.get("k") != "mcall" or n.get("name") not in ITER_CONSUMERS or len(n.get("args") or []) != 1:
+        return None
+    cl = H.peel(n["args"][0])
+    if cl.get("k") != "closure":
+        return None
+    t = (H.peel(n["recv"], refs=False).get("ty") or "").lstrip("&").strip()
+    if t.startswith("mut "):
+        t = t[4:]
+    if t.startswith(("core::option::Option", "core::result::Result")) or not t:
+        return None
+    return cl
+
+
+def rep_iter(node, rep=None):
+    """The iterated expression of a repetition node (`for` loop or iterator-closure call)."""
+    if rep is not None and rep.get("over") is not None:
+        return rep["over"]
+    if node.get("k") == "for":
+        return node.get("iter")
+    if iter_closure(node) is not None:
+        return node["recv"]
+    return None
+
+
+def _bound_inside(n):
+    """ids of the locals bound inside `n` (closure parameters, lets, arm / for patterns)."""
+    out = set()
+    for x in H.walk(n):
+        k = x.get("k")
+        pats = []
+        if k == "closure":
+            pats.extend(x["params"])
+        elif k in ("let", "letexpr", "for"):
+            pats.append(x["pat"])
+        elif k == "match":
+            pats.extend(a["pat"] for a in x["arms"])
+        for p in pats:
+            for (i, _nm) in H.pat_bindings(p):
+                out.add(i)
+    return out
+
+
+def interest_test(root, cond, depth=0):
+    """(flag field, negated) when `cond` is `[!]<interests>.F`: a bool flag of one of the visitor `*Interests` structs ("does the visitor
+    want this attribute"), directly or through a let-bound local."""
+    c0, neg = H.negate_peel(cond)
+    c0 = H.peel(c0)
+    if c0.get("k") == "field" and tyname(c0.get("adt") or "").endswith("Interests"):
+        return c0["name"], neg
+    l = H.local_of(c0)
+    if l and depth < 3:
+        init = H.let_init_of(root, l[0])
+        if init is not None:
+            r = interest_test(root, init, depth + 1)
+            if r is not None:
+                return r[0], r[1] != neg
+    return None
 
 
 def flat_events(events):
@@ -372,7 +463,8 @@ def project(events, buf):
             if body and (b is None or b == buf):
                 out.append(dict(it, body=body))
         elif i == "unk":
-            out.append(it)
+            if it.get("bufs") is None or buf in it["bufs"]:
+                out.append(it)
         elif b == buf:
             out.append(it)
     return out
@@ -480,6 +572,8 @@ def _follow(ex, n, res, depth):
                 # `for _ in 0..<read>`
                 for q, _c in _climb(ex, p):
                     if q.get("k") == "for" and q.get("iter") is p:
+                        res["count_of"] = q
+                    elif iter_closure(q) is not None and H.peel(q["recv"]) is p:
                         res["count_of"] = q
                     break
                 return
@@ -596,6 +690,9 @@ def _pattern_source(ex, lid, with_pat=False):
         elif k == "closure":
             for p in n["params"]:
                 pats.append((p, None))
+        elif k == "mcall" and iter_closure(n) is not None:
+            for p in iter_closure(n)["params"]:
+                pats.append((p, n["recv"]))
         for pat, init in pats:
             r = _find_in_pat(pat, lid, [])
             if r is not None:
@@ -1074,8 +1171,8 @@ def _is_count_of(ex, prim, rep):
             # read_vec(size closure, ..): the primitive sits inside the size closure
             a0 = H.peel(node["args"][0])
             return any(x is prim["node"] for x in H.walk(a0))
-        if node.get("k") == "for":
-            it = H.peel(node["iter"])
+        if rep_iter(node) is not None:
+            it = H.peel(rep_iter(node))
             if it.get("k") == "struct" and (it.get("adt") or "").endswith("Range"):
                 end = next((f["e"] for f in it["fields"] if f["name"] == "end"), None)
                 start = next((f["e"] for f in it["fields"] if f["name"] == "start"), None)
